@@ -97,8 +97,11 @@ def _short(x):
 class Comparer:
     """One comparison of a CPython tree with a compiled Scenic tree."""
 
-    def __init__(self, star_wrapping=True, src=None):
+    def __init__(self, star_wrapping=True, src=None, behavior_locals=False):
         self.star_wrapping = star_wrapping  # off inside behaviors (documented)
+        # inside behaviors / monitors / scenario blocks a local variable may be kept as an
+        # attribute of the running behavior: `x` <-> `<Name>.x` at the same place
+        self.behavior_locals = behavior_locals
         self.rewrites = 0
         self.path = []
         self.diffs = []
@@ -471,6 +474,11 @@ class Comparer:
             self.classdef(py, sc)
         elif t is ast.JoinedStr:
             self.joinedstr(py, sc)
+        elif t is ast.Name and self.behavior_locals and type(sc) is ast.Attribute:
+            if not (type(sc.value) is ast.Name and sc.attr == py.id
+                    and type(sc.ctx) is type(py.ctx)):
+                self.fail("Name", "local-not-a-behavior-attribute", py, sc)
+            self.attrs(py, sc)
         else:
             if type(sc) is not t:
                 self.fail(t.__name__, "type->" + type(sc).__name__, py, sc)
@@ -611,9 +619,9 @@ def diff(py, sc, star_wrapping=True):
     return d, c.rewrites
 
 
-def diff_all(py, sc, star_wrapping=True, src=None):
+def diff_all(py, sc, star_wrapping=True, src=None, behavior_locals=False):
     """(list of all differences, #rewrites seen)."""
-    c = Comparer(star_wrapping, src)
+    c = Comparer(star_wrapping, src, behavior_locals)
     return c.run_all(py, sc), c.rewrites
 
 
